@@ -610,6 +610,24 @@ static void run_lin_case(struct rng *r, long c, int nops, int light)
 	lin_plan(r, nops);
 	pfx_table_init(&pt, NULL);
 	spki_table_init(&kt, NULL);
+	{
+		/* 190-250 router keys of a fourth source that nobody touches or asks for: lookups that walk the whole key list
+		 * have a long way to go, and the keys the writer works on lie across the 256th entry */
+		int nfill = 190 + (int)rndn(r, 61);
+
+		for (int i = 0; i < nfill; i++) {
+			struct spki_record kr;
+
+			memset(&kr, 0, sizeof(kr));
+			kr.asn = 70000 + (uint32_t)i;
+			memset(kr.ski, 0xF1, SKI_SIZE);
+			kr.ski[0] = (uint8_t)i;
+			memset(kr.spki, 0x3C, SPKI_SIZE);
+			kr.socket = &SRC[3];
+			spki_table_add_entry(&kt, &kr);
+		}
+		cnt_max("max:c16/filler_keys", (uint64_t)nfill);
+	}
 	W_STARTED = W_COMPLETED = W_DONE = 0;
 	for (int i = 0; i < nr; i++) {
 		rd[i].log = malloc(sizeof(struct rlog) * MAXLOG);
